@@ -40,6 +40,12 @@ def cases():
         dict(kind='rule', dirs=[], name='Bar', body=choice(seq(lit('b'))))],
         inputs=[('R', 'bx')]))
     
+    # known findings K3s / K3g (C03): a field named like a local variable of the generated code (`state`, `global`) does not compile
+    for kid, fname in (('K3s', 'state'), ('K3g', 'global')):
+        out.append(dict(id='corpus' + kid, tags=['corpus', 'known_' + kid], solo=True, rules=[
+            dict(kind='rule', dirs=['export'], name='S', body=choice(seq(F(fname, 'A'), F('o', 'A')))),
+            dict(kind='rule', dirs=['string'], name='A', body=choice(seq(lit('a'))))],
+            inputs=[('S', 'aa')]))
     # known finding K4 (C07): a @leftrec rule entered in front of skippable whitespace: the recursive reference is evaluated
     # after the blank, at another offset than the planted seed => nested complete parse, the outer extension fails, base wins
     out.append(dict(id='corpusK4', tags=['corpus', 'leftrec', 'lrusual', 'known_K4'], rules=[
